@@ -133,5 +133,7 @@ def run(ctx):
     roots = pr.roots_by_short(F, ("conv::proto::ProtoLibImporter::import",))
     pr.rule_panic_free(ctx, "R19.3", roots, "ProtoLibImporter::import", scope_prefixes=["layout21tetris::"], floor=1, skip_wide_signed=True)
     roots = pr.roots_by_short(F, ("conv::proto::ProtoExporter::export",))
+    from rules import boolxfer as bx
+    bx.run_table(ctx, "R19.1b", bx.TETRIS_PROTO)
     pr.rule_panic_free(ctx, "R19.4", roots, "ProtoExporter::export", scope_prefixes=["layout21tetris::conv::proto"], floor=1, skip_wide_signed=True)
     ctx.assume("outline validity (Outline::from_prim_pitches) and numeric ranges are checked conversions; port import/export of unimplemented kinds is reported by the panic inventory")
